@@ -41,7 +41,7 @@ package xixi_kv
 //@   props C01 C13 C17
 //@   requires [locked] db.mu == nil || db.mu.heldW
 //@   requires [id-room] db.activeFile == nil || db.activeFile.ID < 4294967295
-//@   ensures [ok]   result == nil ==> db.activeFile != nil && fresh(db.activeFile) && INV_df(db.activeFile) && !db.activeFile.closed && db.activeFile.kind == datafile.DataFileSuffix && len(db.activeFile.bufferedWrites) == 0 && arr(db.activeFile.bufferedWrites) == 0 && db.activeFile.ReadWriter.durable == db.activeFile.ReadWriter.size && db.activeFile.ReadWriter.writes == 0 && fresh(db.activeFile.ReadWriter) && fresh(db.activeFile.headerBuf)
+//@   ensures [ok]   result == nil ==> db.activeFile != nil && fresh(db.activeFile) && INV_df(db.activeFile) && !db.activeFile.closed && db.activeFile.kind == datafile.DataFileSuffix && len(db.activeFile.bufferedWrites) == 0 && arr(db.activeFile.bufferedWrites) == 0 && db.activeFile.ReadWriter.durable == db.activeFile.ReadWriter.size && db.activeFile.ReadWriter.writes == 0 && fresh(db.activeFile.ReadWriter) && fresh(db.activeFile.headerBuf) && owned(db.activeFile.headerBuf)
 //@   ensures [id]   result == nil ==> db.activeFile.ID == (old(db.activeFile) == nil ? 0 : old(db.activeFile.ID) + 1)
 //@   ensures [err]  result != nil ==> db.activeFile == old(db.activeFile)
 //@   ensures [foreign-errors] !engineErr(result)
@@ -54,6 +54,7 @@ package xixi_kv
 //@   ensures [rotated] result == nil ==> INV_db(db) && fresh(db.activeFile) && db.activeFile.ID == old(db.activeFile.ID) + 1 && db.activeFile.ReadWriter.writes == 0 && len(db.activeFile.bufferedWrites) == 0 && arr(db.activeFile.bufferedWrites) == 0 && fresh(db.activeFile.ReadWriter) && fresh(db.activeFile.headerBuf) && has(db.olderFiles, old(db.activeFile.ID)) && db.olderFiles[old(db.activeFile.ID)] == old(db.activeFile)
 //@   ensures [rotate-flushed] result == nil ==> old(db.activeFile).ReadWriter.durable == old(db.activeFile).ReadWriter.size
 //@   ensures [older-kept] forall id :: {db.olderFiles[id]} id != old(db.activeFile.ID) ==> has(db.olderFiles, id) == old(has(db.olderFiles, id)) && db.olderFiles[id] == old(db.olderFiles[id])
+//@   ensures [older-dom-kept] forall id :: {old(indom(db.olderFiles, id))} old(has(db.olderFiles, id)) ==> has(db.olderFiles, id)
 //@   ensures [counter] result == nil ==> db.bytesWrite == 0
 //@   ensures [err-keeps-active] result != nil ==> db.activeFile == old(db.activeFile)
 //@   ensures [foreign-errors] !engineErr(result)
@@ -74,6 +75,7 @@ package xixi_kv
 //@   ensures [rotate-flushed] db.activeFile != old(db.activeFile) ==> old(db.activeFile).ReadWriter.durable == old(db.activeFile).ReadWriter.size && has(db.olderFiles, old(db.activeFile.ID)) && db.olderFiles[old(db.activeFile.ID)] == old(db.activeFile) && db.activeFile.ID == old(db.activeFile.ID) + 1
 //@   ensures [limit]   result1 == nil ==> db.activeFile.ReadWriter.size <= db.options.DataFileSize || db.activeFile != old(db.activeFile)
 //@   ensures [older-kept] forall id :: {db.olderFiles[id]} old(has(db.olderFiles, id)) ==> has(db.olderFiles, id) && db.olderFiles[id] == old(db.olderFiles[id])
+//@   ensures [older-dom-kept] forall id :: {old(indom(db.olderFiles, id))} old(has(db.olderFiles, id)) ==> has(db.olderFiles, id)
 //@   ensures [foreign-errors] !engineErr(result1)
 //@   ensures [one-write] result1 == nil ==> db.activeFile.ReadWriter.writes == (db.activeFile == old(db.activeFile) ? old(db.activeFile.ReadWriter.writes) : 0) + 1
 //@   modifies db.activeFile, db.olderFiles[*], db.totalSize, db.bytesWrite, db.logRecordHeader[*], db.activeFile.lastBlockID, db.activeFile.lastBlockSize, db.activeFile.headerBuf[*], db.activeFile.ReadWriter.size, db.activeFile.ReadWriter.data, db.activeFile.ReadWriter.writes, db.activeFile.ReadWriter.durable
@@ -171,7 +173,7 @@ package xixi_kv
 // a batch that is not yet finished holds the database lock exclusively (taken by NewBatch)
 // staged keys and values live in engine-owned arrays (copies of what the caller passed)
 //@ pred stagedOwned(b) = forall i :: {b.staged[i]} 0 <= i && i < len(b.staged) ==> owned(b.staged[i].Key) && owned(b.staged[i].Value)
-//@ pred BATCH(b) = stagedOwned(b) && b != nil && b.db != nil && INV_db(b.db) && len(b.db.activeFile.bufferedWrites) == 0 && ACC(b.db) && posOK(b.db) && b.db.mu != nil && !b.db.mu.heldR && b.batchID > 0 && stagedRecs(b) && stageIdxOK(b) && b.db.activeFile.ID < 4294967295 && b.db.totalSize <= 4611686018427387904 && b.db.reclaimSize <= 4611686018427387904 && 0 <= b.cachedDataSize && b.cachedDataSize <= 4611686018427387904
+//@ pred BATCH(b) = stagedOwned(b) && len(b.staged) <= 268435456 && b != nil && b.db != nil && INV_db(b.db) && len(b.db.activeFile.bufferedWrites) == 0 && ACC(b.db) && posOK(b.db) && b.db.mu != nil && !b.db.mu.heldR && b.batchID > 0 && stagedRecs(b) && stageIdxOK(b) && b.db.activeFile.ID < 4294967295 && b.db.totalSize <= 4611686018427387904 && b.db.reclaimSize <= 4611686018427387904 && 0 <= b.cachedDataSize && b.cachedDataSize <= 4611686018427387904
 //@ pred INV_batch(b) = BATCH(b) && (!b.committed ==> b.db.mu.heldW) && !b.mu.heldW && !b.mu.heldR
 
 //@ func (*xixi_kv.DB).NewBatch
@@ -212,14 +214,14 @@ package xixi_kv
 //@   ensures [foreign-errors] !engineErr(result)
 //@   at (*datafile.DataFile).WriteStagedLogRecord assert [tagged] arg1.BatchID == b.batchID && arg1.BatchID > 0
 //@   at (*datafile.DataFile).FlushStaged assert [fits-or-fresh] arg0 == b.db.activeFile && (b.db.activeFile != old(b.db.activeFile) || arg0.ReadWriter.size == 0 || arg0.ReadWriter.size + b.cachedDataSize + 70 <= b.db.options.DataFileSize || len(b.staged) == 0)
-//@   at (*index.ShardedIndex).Put assert [index-after-write] b.db.activeFile.ReadWriter.writes >= 1
+//@   at (*index.ShardedIndex).Put assert [index-after-write] (b.db.activeFile == old(b.db.activeFile) && b.db.activeFile.ReadWriter.writes == old(b.db.activeFile.ReadWriter.writes) + 1) || (b.db.activeFile != old(b.db.activeFile) && b.db.activeFile.ReadWriter.writes == 1)
 //@   modifies b.staged, b.stageIndex, b.cachedDataSize, b.staged[*].BatchID, b.staged[*].Key, b.staged[*].Value, b.staged[*].Type, b.db.activeFile, b.db.olderFiles[*], b.db.totalSize, b.db.bytesWrite, b.db.reclaimSize, b.db.logRecordHeader[*], b.db.activeFile.lastBlockID, b.db.activeFile.lastBlockSize, b.db.activeFile.headerBuf[*], b.db.activeFile.bufferedWrites, b.db.activeFile.bufferedWrites[*], b.db.activeFile.ReadWriter.size, b.db.activeFile.ReadWriter.data, b.db.activeFile.ReadWriter.writes, b.db.activeFile.ReadWriter.durable, b.db.index.model, b.db.index.count, b.db.index.live
 //@   loop 1
-//@     invariant [files]  INV_db(b.db) && b.db.mu.heldW && b.db == old(b.db) && b.batchID == old(b.batchID) && b.batchID > 0 && stagedRecs(b) && b.staged == old(b.staged)
+//@     invariant [files]  INV_db(b.db) && b.db.mu.heldW && b.db == old(b.db) && b.batchID == old(b.batchID) && b.batchID > 0 && stagedRecs(b) && stagedOwned(b) && b.staged == old(b.staged)
 //@     invariant [staged] stagedOK(b.db.activeFile) && len(b.db.activeFile.bufferedWrites) == rangeindex + 1 && 0 - 1 <= rangeindex && rangeindex <= len(b.staged) - 1
 //@     invariant [buf-own] arr(b.db.activeFile.bufferedWrites) == 0 || fresh(b.db.activeFile.bufferedWrites) || (b.db.activeFile == old(b.db.activeFile) && arr(b.db.activeFile.bufferedWrites) == old(arr(b.db.activeFile.bufferedWrites)))
 //@   loop 2
-//@     invariant [inv]    INV_db(b.db) && ACC(b.db) && posOK(b.db) && b.db.mu.heldW && b.db == old(b.db) && b.staged == old(b.staged) && stagedRecs(b) && len(dataPos) == len(b.staged)
+//@     invariant [inv]    INV_db(b.db) && ACC(b.db) && posOK(b.db) && b.db.mu.heldW && b.db == old(b.db) && b.staged == old(b.staged) && stagedRecs(b) && stagedOwned(b) && len(dataPos) == len(b.staged)
 //@     invariant [positions] forall j :: {dataPos[j]} 0 <= j && j < len(dataPos) ==> dataPos[j] != nil && dataPos[j].Fid == b.db.activeFile.ID && dataPos[j].Offset < 32768
 //@     invariant [sizes]  b.db.totalSize <= 4611686018427387904 + (rangeindex + 1) * 4294967296 && b.db.reclaimSize <= 4611686018427387904 + 2 * (rangeindex + 1) * 4294967296 && 0 - 1 <= rangeindex
 
@@ -238,13 +240,14 @@ package xixi_kv
 //@   props C05 C15 C09 C17
 //@   requires [inv]    INV_batch(b) && b.db.activeFile.ID < 4294967294
 //@   requires [sizes]  len(key) + len(value) <= 134217728
+//@   requires [batch-size] len(b.staged) < 268435456
 //@   ensures [rejects-reuse] old(b.committed) && len(key) > 0 ==> result == ErrBatchCommitted && len(b.staged) == old(len(b.staged)) && b.db.mu.heldW == old(b.db.mu.heldW)
 //@   ensures [empty-key] len(key) == 0 ==> result == ErrKeyIsEmpty
 //@   ensures [unlocked] !b.mu.heldW && !b.mu.heldR && b.db.mu.heldW == old(b.db.mu.heldW)
 //@   ensures [rewrite-is-put] result == nil && b.db.activeFile == old(b.db.activeFile) && called("(*xixi_kv.Batch).findPendingRecord") && result_of("(*xixi_kv.Batch).findPendingRecord") != nil ==> result_of("(*xixi_kv.Batch).findPendingRecord").Type == datafile.LogRecordNormal
 //@   ensures [value-copied] result == nil && b.db.activeFile == old(b.db.activeFile) && called("(*xixi_kv.Batch).findPendingRecord") && result_of("(*xixi_kv.Batch).findPendingRecord") != nil && len(value) > 0 ==> arr(result_of("(*xixi_kv.Batch).findPendingRecord").Value) != arr(value) && arr(result_of("(*xixi_kv.Batch).findPendingRecord").Key) != arr(key)
 //@   ensures [appended-is-put] result == nil && !old(b.committed) && len(key) > 0 && (b.db.activeFile != old(b.db.activeFile) || result_of("(*xixi_kv.Batch).findPendingRecord") == nil) ==> len(b.staged) > 0 && b.staged[len(b.staged) - 1].Type == datafile.LogRecordNormal && arr(b.staged[len(b.staged) - 1].Key) != arr(key) && (len(value) == 0 || arr(b.staged[len(b.staged) - 1].Value) != arr(value))
-//@   ensures [inv] result == nil ==> stagedRecs(b) && stageIdxOK(b) && stagedOwned(b)
+//@   ensures [inv] result == nil ==> stagedRecs(b) && stageIdxOK(b) && stagedOwned(b) && len(b.staged) <= 268435456
 //@   modifies b.mu.heldW, b.mu.sections, b.staged, b.staged[*], b.stageIndex, b.stageIndex[*], arrays:int, arrays:byte, b.cachedDataSize, b.staged[*].BatchID, b.staged[*].Key, b.staged[*].Value, b.staged[*].Type, b.db.activeFile, b.db.olderFiles[*], b.db.totalSize, b.db.bytesWrite, b.db.reclaimSize, b.db.logRecordHeader[*], b.db.activeFile.lastBlockID, b.db.activeFile.lastBlockSize, b.db.activeFile.headerBuf[*], b.db.activeFile.bufferedWrites, b.db.activeFile.bufferedWrites[*], b.db.activeFile.ReadWriter.size, b.db.activeFile.ReadWriter.data, b.db.activeFile.ReadWriter.writes, b.db.activeFile.ReadWriter.durable, b.db.index.model, b.db.index.count, b.db.index.live
 
 //@ func (*xixi_kv.Batch).Delete
@@ -252,13 +255,14 @@ package xixi_kv
 //@   props C05 C15 C09 C17
 //@   requires [inv]    INV_batch(b) && b.db.activeFile.ID < 4294967294
 //@   requires [sizes]  len(key) <= 134217728
+//@   requires [batch-size] len(b.staged) < 268435456
 //@   ensures [rejects-reuse] old(b.committed) && len(key) > 0 ==> result == ErrBatchCommitted && len(b.staged) == old(len(b.staged)) && b.db.mu.heldW == old(b.db.mu.heldW)
 //@   ensures [empty-key] len(key) == 0 ==> result == ErrKeyIsEmpty
 //@   ensures [unlocked] !b.mu.heldW && !b.mu.heldR && b.db.mu.heldW == old(b.db.mu.heldW)
 //@   ensures [staged-becomes-tombstone] result == nil && b.db.activeFile == old(b.db.activeFile) && called("(*xixi_kv.Batch).findPendingRecord") && result_of("(*xixi_kv.Batch).findPendingRecord") != nil ==> result_of("(*xixi_kv.Batch).findPendingRecord").Type == datafile.LogRecordDeleted && len(result_of("(*xixi_kv.Batch).findPendingRecord").Value) == 0
 //@   ensures [absent-is-noop] result == nil && !old(b.committed) && len(key) > 0 && called("(*index.ShardedIndex).Get") && result_of("(*index.ShardedIndex).Get") == nil ==> len(b.staged) == old(len(b.staged))
 //@   ensures [cached-size-shrinks] result == nil && called("(*xixi_kv.Batch).findPendingRecord") && result_of("(*xixi_kv.Batch).findPendingRecord") != nil ==> b.cachedDataSize <= old(b.cachedDataSize)
-//@   ensures [inv] result == nil ==> stagedRecs(b) && stageIdxOK(b) && stagedOwned(b)
+//@   ensures [inv] result == nil ==> stagedRecs(b) && stageIdxOK(b) && stagedOwned(b) && len(b.staged) <= 268435456
 //@   modifies b.mu.heldW, b.mu.sections, b.staged, b.staged[*], b.stageIndex, b.stageIndex[*], arrays:int, arrays:byte, b.cachedDataSize, b.staged[*].BatchID, b.staged[*].Key, b.staged[*].Value, b.staged[*].Type, b.db.activeFile, b.db.olderFiles[*], b.db.totalSize, b.db.bytesWrite, b.db.reclaimSize, b.db.logRecordHeader[*], b.db.activeFile.lastBlockID, b.db.activeFile.lastBlockSize, b.db.activeFile.headerBuf[*], b.db.activeFile.bufferedWrites, b.db.activeFile.bufferedWrites[*], b.db.activeFile.ReadWriter.size, b.db.activeFile.ReadWriter.data, b.db.activeFile.ReadWriter.writes, b.db.activeFile.ReadWriter.durable, b.db.index.model, b.db.index.count, b.db.index.live
 
 //@ func (*xixi_kv.Batch).Get
